@@ -38,6 +38,9 @@ class OrderDomain(Domain):
         return int(res)
 
     def call(self, name, args, m):
+        if name == "verif_pred" and all(a[0] == "tok" for a in args[:2]):
+            # an opaque strict weak order given as a weak order on the tokens: pred(a,b) = a before b
+            return int(self.ranks[args[0][1]] < self.ranks[args[1][1]])
         if name in ("maxnum", "minnum", "fmax", "fmin") and all(a[0] == "tok" for a in args[:2]):
             a, b = args[:2]
             ra, rb = self.ranks[a[1]], self.ranks[b[1]]
@@ -84,10 +87,11 @@ class PolyDomain(Domain):
     Q(sqrt2, sqrt3) with radical/application atoms; comparisons fork."""
     name = "Poly"
 
-    def __init__(self):
+    def __init__(self, fresh_externals=False):
         self.constants = {}
         self.atoms = {}
         self.apps = {}
+        self.fresh_externals = fresh_externals
 
     def sym(self, name):
         return P.Rat.var(name)
@@ -185,7 +189,16 @@ class PolyDomain(Domain):
             a, b = self._r(args[0]), self._r(args[1])
             d = m.decide((name, a, b))
             return a if d else b
-        # application atom of an opaque external function
+        if self.fresh_externals:
+            # an opaque functor: every call returns a fresh symbol; the call sequence is the observable
+            an = "%s#%d" % (name, len(m.trace))
+            if getattr(m, "cur_ty", "").startswith("i"):
+                v = ("cond", ("ext", an))       # opaque integer / boolean result
+            else:
+                v = P.Rat.var(an)
+            m.trace.append((name, list(args), v))
+            return v
+        # application atom of an opaque (pure) external function
         if all(isinstance(a, P.Rat) for a in args):
             key = (name, tuple(a.key() for a in args))
             if key not in self.apps:
